@@ -5,11 +5,16 @@
    Filer.CreateEntry/UpdateEntry/DeleteEntryMetaAndData, the gRPC handlers and the mount's
    link / write / unlink sequences.  The full statement ("after every history that respects
    the client assumptions, every step satisfies the property") is REFUTED; the partial
-   theorems hold for every history in which no operation falls under a trigger:
+   theorems hold for every history in which no operation falls under the trigger
      trig_rename_linked     k=0  a rename moves an entry whose blob carries a link id
-     trig_overwrite_linked  k=1  an entry without link id is written over a name that carries one
-     trig_rec_nodata        k=2  recursive delete WITHOUT data deletion over a child that carries one
-   (c21_quiet also asks that a renamed entry be a file: directory renames are C18's subject.) *)
+   (c21_quiet also asks that a renamed entry be a file: directory renames are C18's subject.)
+   Two former findings are repaired in the tree and in the model: an entry without link id written
+   over a linked name (handleUpdateToHardLinks returned early) and a recursive delete without data
+   deletion (maybeDeleteHardLinks was skipped) now decrement the counters; their witnesses are
+   inside the hypothesis of the partial theorems (c21_repaired_witnesses).  Since these repairs the
+   counter, the gone-iff-last and the shared-view-by-link-id statements are FULL theorems over every
+   history that respects the client assumptions (c21_hist_ok), renames included; what remains refuted
+   is that a renamed name stays linked (c21_shared_view_refuted, c21_history_refuted). *)
 From Coq Require Import List NArith ZArith Bool String.
 From SW Require Import model.Chunks model.HardLink proof.HardLinkInv proof.HardLinkProofs.
 Import ListNotations.
@@ -36,12 +41,12 @@ Print Assumptions c21_history_refuted.
 
 (* ---------- shared view ---------- *)
 (* all names with the same link id show the same content and attributes ... *)
-Theorem c21_shared_view_partial : forall ev ops, c21_hist_quiet ev empty_st ops = true ->
+Theorem c21_shared_view : forall ev ops, c21_hist_ok ev empty_st ops = true ->
   let s := final ev empty_st ops in
   forall p1 e1 p2 e2, nfind s p1 = Some e1 -> nfind s p2 = Some e2 ->
     h_hl e1 <> 0%N -> h_hl e1 = h_hl e2 -> model_view s p1 = model_view s p2.
-Proof. exact c21_shared_view_partial. Qed.
-Print Assumptions c21_shared_view_partial.
+Proof. exact c21_shared_view_full. Qed.
+Print Assumptions c21_shared_view.
 
 (* ... after any update made through any of them *)
 Theorem c21_shared_view_write_through : forall ev s p cs mt via, Inv s ->
@@ -66,45 +71,36 @@ Proof. exact c21_rename_detaches. Qed.
 Print Assumptions c21_shared_view_refuted.
 
 (* ---------- the counter ---------- *)
-Theorem c21_counter_partial : forall ev ops, c21_hist_quiet ev empty_st ops = true ->
+(* FULL (since the two repairs): after every history that respects the client assumptions *)
+Theorem c21_counter : forall ev ops, c21_hist_ok ev empty_st ops = true ->
   let s := final ev empty_st ops in
   forall X b, kv_get s X = Some b -> h_cnt b = Z.of_nat (count_names s X).
-Proof. exact c21_counter_partial. Qed.
-Print Assumptions c21_counter_partial.
-
-Theorem c21_counter_refuted :
-  exists ev ops, c21_hist_ok ev empty_st ops = true /\
-    exists X b, kv_get (final ev empty_st ops) X = Some b /\
-                h_cnt b <> Z.of_nat (count_names (final ev empty_st ops) X).
-Proof. exact c21_counter_refuted. Qed.
-Print Assumptions c21_counter_refuted.
+Proof. exact c21_counter_full. Qed.
+Print Assumptions c21_counter.
 
 (* ---------- the record disappears exactly with the last name ---------- *)
-Theorem c21_gone_iff_last_partial : forall ev ops, c21_hist_quiet ev empty_st ops = true ->
+(* FULL (since the two repairs) *)
+Theorem c21_gone_iff_last : forall ev ops, c21_hist_ok ev empty_st ops = true ->
   let s := final ev empty_st ops in
   forall X, X <> 0%N -> (kv_get s X <> None <-> (0 < count_names s X)%nat).
-Proof. exact c21_gone_iff_last_partial. Qed.
-Print Assumptions c21_gone_iff_last_partial.
+Proof. exact c21_gone_iff_last_full. Qed.
+Print Assumptions c21_gone_iff_last.
 
-Theorem c21_gone_iff_last_refuted :
-  exists ev ops, c21_hist_ok ev empty_st ops = true /\
-    exists X, kv_get (final ev empty_st ops) X <> None /\ count_names (final ev empty_st ops) X = 0%nat.
-Proof. exact c21_gone_iff_last_refuted. Qed.
-Print Assumptions c21_gone_iff_last_refuted.
+(* the two repaired defects: the former witnesses (plain upload over a linked name, then unlink of
+   the other name; recursive delete without data deletion, then unlink of the other name) satisfy
+   the property at every step and leave no record behind *)
+Theorem c21_repaired_witnesses :
+  c21_hist_quiet w_ev empty_st w_overwrite = true /\ kvs (final w_ev empty_st w_overwrite) = [] /\
+  (exists b, kv_get (final w_ev empty_st (firstn 3 w_overwrite)) 1%N = Some b /\ h_cnt b = 1%Z) /\
+  c21_hist_quiet w_ev empty_st w_rec_nodata = true /\ final w_ev empty_st w_rec_nodata = empty_st.
+Proof. exact c21_repaired_witnesses. Qed.
+Print Assumptions c21_repaired_witnesses.
 
-(* the same through a recursive delete without data deletion *)
-Theorem c21_recursive_nodata_refuted :
-  c21_hist_ok w_ev empty_st w_rec_nodata = true /\
-  exists X, kv_get (final w_ev empty_st w_rec_nodata) X <> None /\
-            count_names (final w_ev empty_st w_rec_nodata) X = 0%nat.
-Proof. exact c21_recursive_nodata_refuted. Qed.
-Print Assumptions c21_recursive_nodata_refuted.
-
-(* each witness fails at a step that its trigger names *)
+(* the remaining witness fails at the step its trigger names; the repaired ones do not fail *)
 Theorem c21_witness_triggers :
   c21_first_failure w_ev empty_st w_rename = Some (Some 0%N) /\
-  c21_first_failure w_ev empty_st w_overwrite = Some (Some 1%N) /\
-  c21_first_failure w_ev empty_st w_rec_nodata = Some (Some 2%N).
+  c21_first_failure w_ev empty_st w_overwrite = None /\
+  c21_first_failure w_ev empty_st w_rec_nodata = None.
 Proof. exact c21_witness_triggers. Qed.
 Print Assumptions c21_witness_triggers.
 
